@@ -452,6 +452,8 @@ def array_sum(I, arr: SArr):
 
 
 def array_all(I, arr: SArr):
+    if getattr(arr, 'const_value', None) is True:
+        return True
     n = arr.length
     if isinstance(n, int):
         r = True
@@ -464,6 +466,8 @@ def array_all(I, arr: SArr):
 
 
 def array_any(I, arr: SArr):
+    if getattr(arr, 'const_value', None) is False:
+        return False
     n = arr.length
     if isinstance(n, int):
         r = False
